@@ -1,5 +1,5 @@
 # replay of a bounded stand-in violation (C16): re-run native/c16_states.py
 import sys
-print('n=2 pure=True cat-complex: quad_expectation(1,0.8) = [0.6112, 0.88505] on bosonic, [0.6112, 2.20028] on fock')
+print('fock pure=False: run(prog, modes=[2, 1, 0]).state: index i of the returned state is not the i-th requested mode (quadratures [0.632, 0.929, 0.632, 0.929, 0.632, 0.929] vs [-0.021, -0.033, -0.021, -0.033, -0.021, -0.033] from the full state)')
 print('REPLAY-VIOLATION')
 sys.exit(1)
